@@ -113,7 +113,9 @@ fn audit_scan() -> Vec<String> {
             }
         }
     }
-    walk(std::path::Path::new("/repo/quizx/src"), &mut hits);
+    // the checkout the harness was built against (bin/check sets QSIM_REPO for background sweeps)
+    let repo = std::env::var("QSIM_REPO").unwrap_or_else(|_| "/repo".to_string());
+    walk(&std::path::Path::new(&repo).join("quizx/src"), &mut hits);
     hits
 }
 
